@@ -51,7 +51,17 @@ Wide ==
   \cup {e \in {Rsv(s, subs, ds, rd, <<>>) : s \in Svc, subs \in {<<>>, <<"v1">>}, ds \in {"", "v1"}, rd \in Dest \cup {NoRef}} : ValidEntry(e) /\ e.redirect # R(e.name, "")}
   \cup {e \in {Rsv(s, subs, ds, NoRef, Star(<<d>>)) : s \in Svc, subs \in {<<>>, <<"v1">>}, ds \in {"", "v1"}, d \in Dest} : ValidEntry(e)}
 
-Universe == IF Profile = "core" THEN Core ELSE Wide
+\* cycles located anywhere: splitter loops behind a router, behind another splitter, among services that are
+\* not the compiled one; redirect loops behind splitters and routers (expected outcome: Err(cycle))
+Cyc ==
+  {Prx("http")}
+  \cup {Rtr("a", <<>>), Rtr("a", <<R("b", "")>>), Rtr("c", <<R("a", "")>>)}
+  \cup {Spl("a", <<R("b", "")>>), Spl("a", <<R("c", "")>>), Spl("a", <<R("", ""), R("b", "")>>),
+        Spl("b", <<R("a", "")>>), Spl("b", <<R("c", "")>>), Spl("b", <<R("", ""), R("c", "")>>),
+        Spl("c", <<R("b", "")>>), Spl("c", <<R("a", "")>>)}
+  \cup {Rsv("b", <<>>, "", R("c", ""), <<>>), Rsv("c", <<>>, "", R("b", ""), <<>>), Rsv("c", <<>>, "", R("a", ""), <<>>)}
+
+Universe == IF Profile = "core" THEN Core ELSE IF Profile = "cyc" THEN Cyc ELSE Wide
 
 JudgedC == IF WithTcp THEN {DefaultCtx, TcpCtx} ELSE {DefaultCtx}
 EvalC == {DefaultCtx, TcpCtx, [dc |-> "dc1", op |-> "http"]}
